@@ -42,6 +42,8 @@ type c07Event struct {
 	Panic   string `json:"panic"`
 	Timeout bool   `json:"timeout"`
 	Acc     bool   `json:"accepted"`
+	Acc4    bool   `json:"acc4"`
+	Acc7    bool   `json:"acc7"`
 	NCell   int    `json:"ncell"`
 	Frame   []int  `json:"frame,omitempty"`
 }
@@ -119,7 +121,7 @@ func buildMSM(rng *rand.Rand, typ, nsat, nsig, L int, fill string, flag int, tsK
 
 // exercise runs every stage on one frame; stage is updated before each call so a
 // panic or a hang can be attributed.
-func exercise(frame []byte, stage *atomic.Value) (accepted bool) {
+func exercise(frame []byte, stage *atomic.Value) (accepted, acc4, acc7 bool) {
 	start := time.Date(2023, 5, 10, 12, 0, 0, 0, time.UTC)
 	for _, lv := range []slog.Level{slog.LevelDebug, slog.LevelInfo} {
 		stage.Store("GetMessage")
@@ -138,11 +140,13 @@ func exercise(frame []byte, stage *atomic.Value) (accepted bool) {
 		}
 		stage.Store("msm4.GetMessage")
 		if d, err := msm4.GetMessage(frame, lv); err == nil {
+			acc4 = true
 			stage.Store("msm4.String")
 			_ = d.String()
 		}
 		stage.Store("msm7.GetMessage")
 		if d, err := msm7.GetMessage(frame, lv); err == nil {
+			acc7 = true
 			stage.Store("msm7.String")
 			_ = d.String()
 		}
@@ -178,7 +182,7 @@ func runGuarded(w *tr.Writer, cases []c07Case) {
 			for k := from; k < len(cases); k++ {
 				c := cases[k]
 				ev := c.ev
-				ev.Panic = tr.Recover(func() { ev.Acc = exercise(c.frame, &stage) })
+				ev.Panic = tr.Recover(func() { ev.Acc, ev.Acc4, ev.Acc7 = exercise(c.frame, &stage) })
 				if ev.Panic != "" {
 					ev.Stage = stage.Load().(string)
 					ev.Frame = tr.Ints(c.frame)
